@@ -2,7 +2,12 @@ pub mod worker;
 pub mod c01;
 pub mod c02;
 pub mod c04;
+pub mod c03;
 pub mod c10;
+pub mod c11;
+pub mod c12;
+pub mod c13;
+pub mod tree;
 pub mod c17;
 pub mod c19;
 
@@ -18,7 +23,11 @@ pub fn run(ctx: &Ctx) -> i32 {
         "C01" => c01::run(ctx),
         "C02" => c02::run(ctx),
         "C04" => c04::run(ctx),
+        "C03" => c03::run(ctx),
         "C10" => c10::run(ctx),
+        "C11" => c11::run(ctx),
+        "C12" => c12::run(ctx),
+        "C13" => c13::run(ctx),
         "C17" => c17::run(ctx),
         "C19" => c19::run(ctx),
         other => {
